@@ -614,6 +614,11 @@ func aggregate(m *Monitor, tier string, seed int64, all []Result) *Agg {
 func finish(a *Agg, planned int, wall time.Duration) int {
 	m := a.Mon
 	vd := verifDir()
+	if o := os.Getenv("VERIF_OUT_DIR"); o != "" {
+		// runs against a scratch copy of the repository (seeded-change validation) must not overwrite the
+		// evidence of the real tree
+		vd = o
+	}
 	// replay files
 	var vlines []string
 	rdir := filepath.Join(vd, "replays", m.ID)
